@@ -27,7 +27,7 @@ type Profile struct {
 	ErrHeavy    bool            // favour error results, error converters, error getters and error hooks (C07)
 }
 
-var fieldNames = []string{"_", "ID", "Name", "Status", "Val", "Cat", "Score", "Tags", "Items", "Nested", "Count", "Flag", "Data", "Id", "id", "name", "NAME", "val", "Ptr", "Extra", "Zed"}
+var fieldNames = []string{"_", "Value", "Named", "IDs", "ID", "Name", "Status", "Val", "Cat", "Score", "Tags", "Items", "Nested", "Count", "Flag", "Data", "Id", "id", "name", "NAME", "val", "Ptr", "Extra", "Zed"}
 var nonASCIINames = []string{"Ünit", "ünit", "Kelvin", "Kelvin", "ſet", "Set"}
 
 // groupOf maps a type kind to its conversion-relation group.
@@ -219,6 +219,43 @@ func GenStructPair(t *rapid.T, pf Profile, idx int) (src, dst StructDecl) {
 				addS(mk(name, sa))
 				addD(mk(name, da))
 			}
+		case k < 82: // structs nested two levels deep (three-segment destination paths), local types only
+			if needExt {
+				continue
+			}
+			deepT := []TypeAtom{{"LDeep", "", "struct-local-deep"}, {"LDeep2", "", "struct-local-deep"}}
+			addS(mk(name, rapid.SampledFrom(deepT).Draw(t, "deepS")))
+			addD(mk(name, rapid.SampledFrom(deepT).Draw(t, "deepD")))
+		case k == 82: // targeted pairs (each reaches a construct that random atoms practically never combine)
+			if needExt {
+				continue
+			}
+			at := func(home, kind string) TypeAtom { return TypeAtom{Home: home, Kind: kind} }
+			switch rapid.IntRange(0, 1).Draw(t, "targeted") {
+			case 0:
+				// a field whose name is a string prefix of another field's name; the longer one is a struct of an
+				// imported type with unexported members, same type on both sides (copied as a whole)
+				whole := rapid.SampledFrom([]string{"ext.Inner", "oh.Rec", "ext.Cat", "ext.Hidden", "ext.WithAnon"}).Draw(t, "wholeT")
+				addS(mk("Val", at("int", "basic")))
+				addD(mk("Val", at("int", "basic")))
+				addS(mk("Value", at(whole, "struct-imported")))
+				addD(mk("Value", at(whole, "struct-imported")))
+			default:
+				// a local struct type named like a type of a package that is only reached through another
+				// imported type, both copied member by member in the same method
+				first := rapid.Bool().Draw(t, "indirectFirst")
+				add := func(local bool) {
+					if local {
+						addS(mk("Stamp", at("Stamp", "struct-local-same-name-as-indirect")))
+						addD(mk("Stamp", at("Stamp2", "struct-local-same-name-as-indirect")))
+					} else {
+						addS(mk("Rec", at("ext.Record", "struct-imported-with-indirect-member")))
+						addD(mk("Rec", at("ext.Record2", "struct-imported-with-indirect-member")))
+					}
+				}
+				add(first)
+				add(!first)
+			}
 		case k < 83: // source only
 			addS(mk(name, a))
 		case k < 90: // destination only
@@ -349,7 +386,7 @@ func LiteralFor(home string) string {
 	case "int", "int64", "int32", "uint8", "float64", "LInt", "ext.MyInt", "LStatus", "ext.Status", "LPStatus", "ext.PStatus", "LFlt":
 		return "7"
 	case "string", "LStr", "ext.MyStr":
-		return `"lit"`
+		return `"lit costs US$5, $1 ${x} $$ %d"`
 	case "bool":
 		return "true"
 	case "LInner":
@@ -413,6 +450,18 @@ func knownMembers(home string, forSource bool) []member {
 		for _, k := range knownMembers("LInner2", forSource) {
 			ms = append(ms, member{"In." + k.Path, k.Home})
 		}
+	case "LTwin":
+		ms = []member{{"A", "int"}, {"B", "string"}, {"c", "int"}, {"D", "LInt"}}
+	case "ext.InnerTwin":
+		ms = []member{{"A", "int"}, {"B", "string"}, {"D", "ext.MyInt"}}
+	case "Stamp":
+		ms = []member{{"At", "int"}, {"rev", "int"}}
+	case "Stamp2":
+		ms = []member{{"At", "int64"}, {"rev", "int"}}
+	case "ext.Record":
+		ms = []member{{"N", "int"}, {"Stamp.At", "int"}}
+	case "ext.Record2":
+		ms = []member{{"N", "int"}, {"Stamp.At", "int64"}}
 	case "LInnerG", "ext.InnerG":
 		ms = []member{{"A", "int"}, {"C", "int"}, {"PB", "string"}}
 	case "oh.Rec":
@@ -537,6 +586,11 @@ func (u *UserFuncs) Converter(argType, retType string, retErr, ptrArg bool) stri
 
 // Hook declares a pre/postprocess function and returns its name.
 func (u *UserFuncs) Hook(kind string, dstType string, dstPtr bool, srcType string, srcPtr bool, extras []Param, retErr bool) string {
+	return u.HookN(kind, dstType, dstPtr, srcType, srcPtr, extras, retErr, false)
+}
+
+// HookN: twoResults declares the hook as returning (int, error), which no method can accommodate.
+func (u *UserFuncs) HookN(kind string, dstType string, dstPtr bool, srcType string, srcPtr bool, extras []Param, retErr, twoResults bool) string {
 	u.n++
 	name := fmt.Sprintf("%s%d", kind, u.n)
 	dt, st := dstType, srcType
@@ -557,7 +611,9 @@ func (u *UserFuncs) Hook(kind string, dstType string, dstPtr bool, srcType strin
 	if u.ToSetup {
 		out = &u.setup
 	}
-	if retErr {
+	if twoResults {
+		fmt.Fprintf(out, "func %s(%s) (int, error) { tr.Arg(%q, %s); return 0, tr.HitE(%q) }\n\n", name, ps.String(), name, as.String(), name)
+	} else if retErr {
 		fmt.Fprintf(out, "func %s(%s) error { tr.Arg(%q, %s); return tr.HitE(%q) }\n\n", name, ps.String(), name, as.String(), name)
 	} else {
 		fmt.Fprintf(out, "func %s(%s) { tr.Arg(%q, %s); tr.Hit(%q) }\n\n", name, ps.String(), name, as.String(), name)
@@ -623,7 +679,14 @@ func GenNotations(t *rapid.T, m *Method, src, dst StructDecl, uf *UserFuncs, pf 
 			if len(same) > 0 && rapid.IntRange(0, 3).Draw(t, "sameT") != 0 {
 				s = rapid.SampledFrom(same).Draw(t, "msrcSame")
 			}
-			if len(m.Extras) > 0 && rapid.IntRange(0, 2).Draw(t, "tmpl") == 0 {
+			dollarOneOdds := 5
+			if strings.Contains(d.Path, ".") {
+				dollarOneOdds = 2
+			}
+			if rapid.IntRange(0, dollarOneOdds).Draw(t, "dollarOne") == 0 && !strings.Contains(s.Path, "()") {
+				// "$1" is the source operand itself, at every nesting depth of the destination
+				m.Notes = append(m.Notes, Notation{"map", []string{"$1." + s.Path, d.Path}})
+			} else if len(m.Extras) > 0 && rapid.IntRange(0, 2).Draw(t, "tmpl") == 0 {
 				ei := rapid.IntRange(0, len(m.Extras)-1).Draw(t, "ei")
 				m.Notes = append(m.Notes, Notation{"map", []string{fmt.Sprintf("$%d", ei+2), d.Path}})
 			} else {
@@ -731,14 +794,31 @@ func GenProg(t *rapid.T, pf Profile) *Prog {
 					}
 					_ = eff
 					uf.ToSetup = rapid.IntRange(0, 2).Draw(t, "hookInSetup") == 0
-					name := uf.Hook(kind[:3], m.DstType, dptr, m.SrcType, sptr, ex, herr)
+					two := pf.ErrHeavy && rapid.IntRange(0, 7).Draw(t, "hookTwoResults") == 0 // cannot fit: must be refused
+					name := uf.HookN(kind[:3], m.DstType, dptr, m.SrcType, sptr, ex, herr, two)
 					m.Notes = append(m.Notes, Notation{kind, []string{name}})
 				}
 			}
 			if pf.Docs && rapid.IntRange(0, 2).Draw(t, "mdoc") == 0 {
-				m.Doc = []string{fmt.Sprintf("%s copies %s into %s.", m.Name, m.SrcType, m.DstType)}
+				m.Doc = []string{fmt.Sprintf("%s copies %s into %s (costs US$5, $1 ${x} $$ 100%%).", m.Name, m.SrcType, m.DstType)}
 			}
 			it.Methods = append(it.Methods, m)
+		}
+		if pf.Hooks && pf.ExtStructs && k == 0 && rapid.IntRange(0, 5).Draw(t, "aliasedHook") == 0 {
+			m := Method{Name: fmt.Sprintf("Convert%02dAliasedHook", mi), SrcType: "ext.Inner", DstType: "ext.Inner2", SrcPtr: true, DstPtr: true}
+			mi++
+			hk := rapid.SampledFrom([]string{"hooksv2.Finalize", "hooks.Finalize"}).Draw(t, "aliasedHookFn")
+			m.Notes = append(m.Notes, Notation{rapid.SampledFrom([]string{"preprocess", "postprocess"}).Draw(t, "aliasedHookPos"), []string{hk}})
+			// the other same-named package is imported too
+			other := "hooks.Finalize"
+			if hk == other {
+				other = "hooksv2.Finalize"
+			}
+			it.Methods = append(it.Methods, m)
+			m2 := Method{Name: fmt.Sprintf("Convert%02dAliasedHookTwin", mi), SrcType: "ext.Inner", DstType: "ext.Inner2", SrcPtr: true, DstPtr: true,
+				Notes: []Notation{{"postprocess", []string{other}}}}
+			mi++
+			it.Methods = append(it.Methods, m2)
 		}
 		if dupNames && k == 0 {
 			m := Method{Name: fmt.Sprintf("Convert%02dDupNames", mi), SrcType: "DupS", DstType: "DupD", SrcPtr: true, DstPtr: true}
@@ -851,7 +931,11 @@ func (p *Prog) FixImports() {
 		case usesQual(sigText.String(), k.Qual):
 			p.Imports = append(p.Imports, Import{Name: k.Alias, Path: k.Path})
 		case usesQual(noteText.String(), k.Qual) && k.Qual != "tr":
-			p.Imports = append(p.Imports, Import{Name: "_", Path: k.Path})
+			name := "_"
+			if k.Alias != "" {
+				name = k.Alias // the notation can only name the package through its alias
+			}
+			p.Imports = append(p.Imports, Import{Name: name, Path: k.Path})
 		}
 	}
 }
